@@ -398,9 +398,9 @@ class Interp:
             return UNIT
 
     def havoc_value(self, name):
-        k = self.havoc_count.get(name, 0) + 1
-        self.havoc_count[name] = k
-        return VOpaque(f"havoc:{name}#{k}")
+        # named after the variable only: a havocked variable stands for "whatever the untracked code computed into it"
+        self.havoc_count[name] = self.havoc_count.get(name, 0) + 1
+        return VOpaque(f"havoc:{name}")
 
     def stmt_inner(self, st, env, is_last):
         k = st["k"]
@@ -924,6 +924,8 @@ class Interp:
             self.fail(e, "BlsScalar::from of non-constant")
         if name in ("Vec::with_capacity", "Vec::new"):
             return VArr([], "vec")
+        if name == "bool::from":
+            return args[0]
         if name == "Ok":
             return VOk(args[0])
         if name == "Err":
@@ -1406,7 +1408,7 @@ def run_unit(root, unit, contracts, seed=0, perturb=None):
                 # the path condition may make the two sides coincide: specialise for the predicates we understand
                 sub = {}
                 for c, t in pcs:
-                    if isinstance(c, VOpaque) and c.name == "is_zero" and t and isinstance(c.args[0], (Sym, VOpaque, Poly)):
+                    if isinstance(c, VOpaque) and c.name in ("is_zero", "is_identity") and t and isinstance(c.args[0], (Sym, VOpaque, Poly)):
                         vs = as_poly(c.args[0]).vars()
                         if len(vs) == 1:
                             sub[list(vs)[0]] = C(0)
@@ -1416,12 +1418,19 @@ def run_unit(root, unit, contracts, seed=0, perturb=None):
                         detail, cex = detail2, cex2
                 if not ok:
                     # a difference is a genuine counterexample only if the path condition does not constrain its symbols
-                    dv = _diff_vars(a, b)
+                    a2, b2 = (_subst(a, sub), _subst(b, sub)) if sub else (a, b)
+                    la, lb = _first_diff(a2, b2)
+                    dv = _diff_vars(la, lb)
+                    poly_diff = isinstance(la, (Poly, Sym)) and isinstance(lb, (Poly, Sym, int))
                     cv_ = set()
                     for c, _t in pcs:
+                        if _is_equality(c, _t) and sub:
+                            continue      # already used as a substitution
+                        if poly_diff and _is_inequality(c, _t):
+                            continue      # an inequality leaves a Zariski-open set: a non-zero polynomial cannot vanish on all of it
                         cv_ |= _value_vars(c)
-                    if _shape(a) != _shape(b):
-                        und = False      # the SEQUENCE of operations differs on this path: no value-level argument can repair that
+                    if _shape(a) != _shape(b) or la is _STRUCT:
+                        und = False      # the SEQUENCE / structure of operations differs on this path
                     elif dv is None or (dv & cv_):
                         und = True
                     detail = f"on the path [{pc_txt}]: {detail}"
@@ -1443,6 +1452,61 @@ def run_unit(root, unit, contracts, seed=0, perturb=None):
             ob["recipe"] = unit.replay
         obs.append(ob)
     return obs, calls
+
+
+_STRUCT = object()
+
+
+def _first_diff(a, b):
+    """the first pair of leaves at which two comparable values differ ((_STRUCT, _STRUCT) for a structural mismatch)"""
+    if isinstance(a, (Poly, Sym)) and isinstance(b, (Poly, Sym, int)) or isinstance(b, (Poly, Sym)) and isinstance(a, (Poly, Sym, int)):
+        return a, b
+    pairs = None
+    if isinstance(a, VOpaque) and isinstance(b, VOpaque):
+        if a.name != b.name or len(a.args) != len(b.args):
+            return _STRUCT, _STRUCT
+        pairs = zip(a.args, b.args)
+    elif isinstance(a, (VArr, VIter, VTuple)) and isinstance(b, (VArr, VIter, VTuple)):
+        if len(a.items) != len(b.items):
+            return _STRUCT, _STRUCT
+        pairs = zip(a.items, b.items)
+    elif isinstance(a, (list, tuple)) and isinstance(b, (list, tuple)):
+        if len(a) != len(b):
+            return _STRUCT, _STRUCT
+        pairs = zip(a, b)
+    elif isinstance(a, VOk) and isinstance(b, VOk):
+        pairs = [(a.v, b.v)]
+    elif isinstance(a, VStruct) and isinstance(b, VStruct):
+        if a.name != b.name or sorted(a.fields) != sorted(b.fields):
+            return _STRUCT, _STRUCT
+        pairs = [(a.fields[k], b.fields[k]) for k in sorted(a.fields)]
+    if pairs is not None:
+        for x, y in pairs:
+            ok, _d, _c = compare(x, y, 0)
+            if not ok:
+                return _first_diff(x, y)
+        return a, b
+    return a, b
+
+
+def _is_inequality(c, taken):
+    """does the decided condition only EXCLUDE a lower-dimensional set (x != 0, a < b, ...)?"""
+    if not isinstance(c, VOpaque):
+        return False
+    n = c.name
+    if n == "not":
+        return _is_equality(c.args[0], taken)
+    if n in ("is_zero", "eq", "is_identity", "is_empty", "is_none"):
+        return not taken
+    if n in ("ne", "lt", "le", "gt", "ge", "is_some"):
+        return True if n != "ne" else taken
+    return False
+
+
+def _is_equality(c, taken):
+    if isinstance(c, VOpaque) and c.name in ("is_zero", "eq", "is_identity"):
+        return taken
+    return False
 
 
 def _shape(v):
